@@ -21,6 +21,8 @@ def gen(rng, tier, no, wide=False):
     force = {"memcpy_rate": rng.choice([0.2, 0.4, 0.5])}
     if rng.random() < 0.5:
         force.update({"nranks": rng.choice([2, 3]), "corr_start": rng.choice([1, 100])})   # ids collide across ranks
+    if rng.random() < 0.1:
+        force.update({"nranks": rng.choice([2, 3]), "filler": -90})        # many rank-specific names: global symbol ids beyond 127
     case = G.gen_case(rng, **force)
     # the ranks in the order the caller lists them (not necessarily ascending)
     case["params"] = {"include_memory": rng.random() < 0.5,
